@@ -381,6 +381,17 @@ def build_case(w, prog, log, clock, scratch, sink_factory, hints=()):
             return
         k = term[0]
         if k == 'raise1':
+            if ['api', sid] in hints and term[1][0] in ('skip', 'failure'):
+                # realisation hint: the same exception raised through the TestCase helper instead of a raise statement
+                try:
+                    if term[1][0] == 'skip':
+                        case.skipTest('reason-%d' % term[1][1])
+                    else:
+                        case.fail('x%d' % term[1][1])
+                except (unittest.SkipTest, AssertionError) as x:
+                    x.verif = list(term[1])
+                    raise
+                raise AssertionError('harness: helper did not raise')
             raise w.make_exc(term[1])
         if k == 'raiseMulti':
             me = w.MultipleExceptions(*[exc_info_of(w.make_exc(e)) for e in term[1]])
@@ -712,6 +723,9 @@ def gen_input(rng, focus='all'):
             st[3] = ['raise1', g.exc([('exc', 3), ('failure', 2), ('skip', 1)])]
         if not (prog[2] and st is prog[4]):       # not under the expectedFailure decorator (it would wrap the exception)
             hints.append(st[1])
+    for st in all_stages(prog):
+        if isinstance(st[3], list) and st[3][0] == 'raise1' and st[3][1][0] in ('skip', 'failure') and rng.random() < 0.3:
+            hints.append(['api', st[1]])
     if prog[1] is not None:
         k = rng.randrange(8)
         if k:
@@ -753,7 +767,7 @@ def exc_kinds(prog):
 
 def features(inp, traces):
     prog, runs = inp[0], inp[1]
-    f = ['flavour=' + prog[-1], 'runs=%d' % runs] + (['hint:fixture-getDetails-raises'] if len(inp) > 2 and any(isinstance(h, int) for h in inp[2]) else []) + ['hint:skip-decorator-%d' % h[1] for h in (inp[2] if len(inp) > 2 else []) if isinstance(h, list)]
+    f = ['flavour=' + prog[-1], 'runs=%d' % runs] + (['hint:fixture-getDetails-raises'] if len(inp) > 2 and any(isinstance(h, int) for h in inp[2]) else []) + ['hint:skip-decorator-%d' % h[1] for h in (inp[2] if len(inp) > 2 else []) if isinstance(h, list) and h[0] == 'skip'] + ['hint:helper-raises' for h in (inp[2] if len(inp) > 2 else []) if isinstance(h, list) and h[0] == 'api'][:1]
     sts = list(all_stages(prog))
     faulty = [s for s in sts if s[3] != 'ret']
     f.append('stages=%s' % (len(sts) if len(sts) < 8 else '8+'))
